@@ -717,26 +717,6 @@ Proof.
     rewrite IH by (intros x Hx; apply NL; right; exact Hx). reflexivity.
 Qed.
 
-Lemma scan_ok_short ls :
-  (forall l, In l ls -> (lenN l < max_token)%N) -> scan_ok ls = (map drop_cr ls, false).
-Proof.
-  induction ls as [|l ls IH]; intros H; [reflexivity|]. cbn [scan_ok map].
-  destruct (N.leb_spec max_token (lenN l)) as [C|_].
-  - specialize (H l (or_introl eq_refl)). lia.
-  - rewrite IH by (intros x Hx; apply H; right; exact Hx). reflexivity.
-Qed.
-
-Lemma scan_ok_long a l b :
-  (forall x, In x a -> (lenN x < max_token)%N) -> (max_token <= lenN l)%N ->
-  scan_ok (a ++ l :: b)%list = (map drop_cr a, true).
-Proof.
-  induction a as [|x a IH]; intros H L; cbn [app scan_ok map].
-  - destruct (N.leb_spec max_token (lenN l)) as [_|C]; [reflexivity|lia].
-  - destruct (N.leb_spec max_token (lenN x)) as [C|_].
-    + specialize (H x (or_introl eq_refl)). lia.
-    + rewrite IH by (try exact L; intros y Hy; apply H; right; exact Hy). reflexivity.
-Qed.
-
 Lemma no_nl_drop_cr l : no_nl l -> no_nl (drop_cr l).
 Proof.
   unfold no_nl. induction l as [|c l IH]; intros H; [reflexivity|].
@@ -754,36 +734,23 @@ Section Files.
   Definition phys (ls : list string) (last : string) : list string :=
     (ls ++ (if last =? "" then [] else [last]))%list.
 
-  (* every physical line of the file (LF or CRLF ended, or the unterminated last one) gives
-     exactly one item, ParseLine of that line, in order *)
+  (* every physical line of the file (LF or CRLF ended, or the unterminated last one), of ANY
+     length, gives exactly one item, ParseLine of that line, in order *)
   Theorem load_text_items ls last :
     (forall l, In l ls -> no_nl l) -> no_nl last ->
-    (forall l, In l (phys ls last) -> (lenN l < max_token)%N) ->
-    load_text parse_dur regex_ok atoi (unlines ls ++ last) =
-      (map (fun l => P (drop_cr l)) (phys ls last), false).
+    load_text parse_dur regex_ok atoi (unlines ls ++ last) = map (fun l => P (drop_cr l)) (phys ls last).
   Proof.
-    intros NL NLl Sh. unfold load_text, file_lines. rewrite (raw_lines_unlines _ _ NL NLl).
-    fold (phys ls last). rewrite (scan_ok_short _ Sh). unfold parse_file. rewrite map_map. reflexivity.
-  Qed.
-
-  (* a line of 64 KiB or more: the items of the lines before it, and the load fails *)
-  Theorem load_text_too_long ls last a l b :
-    (forall x, In x ls -> no_nl x) -> no_nl last -> phys ls last = (a ++ l :: b)%list ->
-    (forall x, In x a -> (lenN x < max_token)%N) -> (max_token <= lenN l)%N ->
-    load_text parse_dur regex_ok atoi (unlines ls ++ last) = (map (fun x => P (drop_cr x)) a, true).
-  Proof.
-    intros NL NLl E Sh L. unfold load_text, file_lines. rewrite (raw_lines_unlines _ _ NL NLl).
-    fold (phys ls last). rewrite E, (scan_ok_long _ _ _ Sh L). unfold parse_file. rewrite map_map. reflexivity.
+    intros NL NLl. unfold load_text, file_lines. rewrite (raw_lines_unlines _ _ NL NLl).
+    fold (phys ls last). unfold parse_file. rewrite map_map. reflexivity.
   Qed.
 
   (* checking a loaded file reports an error precisely when some physical line is malformed *)
   Theorem file_check_iff_malformed ls last :
     (forall l, In l ls -> no_nl l) -> no_nl last ->
-    (forall l, In l (phys ls last) -> (lenN l < max_token)%N) ->
-    (check_fails (fst (load_text parse_dur regex_ok atoi (unlines ls ++ last))) = true <->
+    (check_fails (load_text parse_dur regex_ok atoi (unlines ls ++ last)) = true <->
      exists l, In l (phys ls last) /\ malformed parse_dur regex_ok atoi (drop_cr l)).
   Proof.
-    intros NL NLl Sh. rewrite (load_text_items _ _ NL NLl Sh). cbn [fst].
+    intros NL NLl. rewrite (load_text_items _ _ NL NLl).
     rewrite <- (map_map drop_cr P). change (map P (map drop_cr (phys ls last))) with
       (parse_file parse_dur regex_ok atoi (map drop_cr (phys ls last))).
     rewrite check_iff_malformed.
@@ -796,18 +763,16 @@ Section Files.
   Qed.
 End Files.
 
-(* ================================================================ the one thing the loader refuses *)
+(* ================================================================ the scanner limit that F14d removed *)
 (* n copies of a byte *)
 Definition rep (n : N) (c : ascii) : string := N.iter n (String c) "".
 
-(* a file that consists of one line of 65536 bytes: no item at all, and the load fails - so
-   "every line of a play file parses to exactly one item" needs the bound on the line length
-   that load_text_items states *)
-Lemma long_line_refused pd ro ai :
-  List.length (raw_lines (rep 65536 "=")) = 1%nat /\ load_text pd ro ai (rep 65536 "=") = ([], true).
+(* with the old 64 KiB limit a file that consists of one line of 65536 bytes gave no item at all
+   and the load failed; without the limit it gives its one item *)
+Lemma old_limit_refused pd ro ai :
+  List.length (raw_lines (rep 65536 "=")) = 1%nat /\ load_text_limited pd ro ai (rep 65536 "=") = ([], true).
 Proof. split; vm_compute; reflexivity. Qed.
 
-(* while a line of 65535 bytes is read like any other *)
-Lemma longest_line_read pd ro ai :
-  List.length (fst (load_text pd ro ai (rep 65535 "="))) = 1%nat /\ snd (load_text pd ro ai (rep 65535 "=")) = false.
-Proof. split; vm_compute; reflexivity. Qed.
+Lemma long_line_read pd ro ai :
+  List.length (load_text pd ro ai (rep 65536 "=")) = 1%nat.
+Proof. vm_compute; reflexivity. Qed.
